@@ -351,8 +351,14 @@ def st_qcmp(ctx, n, label="qcmp"):
         else:
             items2 = list(items)
             i = r.below(len(items2))
-            m = r.below(3)
-            if m == 0:
+            m = r.below(4)
+            if m == 3:
+                k0 = items2[i][0]
+                nk = k0 + "z"
+                if nk in [x for x, _ in items2]:
+                    nk = k0 + "zz"
+                items2[i] = (nk, items2[i][1])
+            elif m == 0:
                 items2[i] = (items2[i][0], items2[i][1] + "x")
             elif m == 1:
                 del items2[i]
@@ -543,7 +549,8 @@ def st_cmp(ctx, n, shapes, label="cmp"):
     r = ctx.rng(label)
     out = []
     fixed = [("b/%s/%s/q:%s:%s" % (hx("t"), hx("n"), hx("k"), hx("a&l=c")), "b/%s/%s/q:%s:%s;q:%s:%s" % (hx("t"), hx("n"), hx("k"), hx("a"), hx("l"), hx("c"))),
-             ("p/" + hx("pkg:t/n"), "p/" + hx("pkg:T//n")), ("p/" + hx("pkg:t/a/b"), "p/" + hx("pkg:t/a%2Fb")),
+             ("p/" + hx("pkg:t/n"), "p/" + hx("pkg:T//n")), ("p/" + hx("pkg:t/n?arch=x"), "p/" + hx("pkg:t/n?arc=x")),
+             ("p/" + hx("pkg:t/n?a=1&b=2"), "p/" + hx("pkg:t/n?a=1&bc=2")), ("p/" + hx("pkg:t/a/b"), "p/" + hx("pkg:t/a%2Fb")),
              ("b/%s/%s/ns:%s" % (hx("t"), hx("b"), hx("a")), "b/%s/%s/-" % (hx("t"), hx("a/b")))]
     for a, b in fixed:
         out.append(case("cmp S %s %s" % (a, b), "cmp-fixed"))
@@ -552,8 +559,19 @@ def st_cmp(ctx, n, shapes, label="cmp"):
         ty = flipcase(r, r.pick(KNOWN_TYPES)) if sh == "P" else None
         t = rand_tuple(r, ty=ty, plain=r.chance(1, 3))
         s1, _ = spell(r, t)
-        m = r.below(4)
-        if m == 0:
+        m = r.below(6)
+        if m >= 4 and t.quals:
+            # one qualifier key shortened / lengthened by a character (prefix-related keys), same values
+            i = r.below(len(t.quals))
+            k, v = t.quals[i]
+            nk = k[:-1] if (len(k) > 1 and r.chance(1, 2)) else k + r.pick("abz_9")
+            if nk.lower() in [x.lower() for x, _ in t.quals] or nk.lower() == "checksum" or k.lower() == "checksum":
+                nk = k
+            q2 = list(t.quals)
+            q2[i] = (nk, v)
+            t2 = Tuple(t.ty, list(t.ns), t.name, t.version, q2, list(t.sub), t.cks)
+            s2, _ = spell(r, t2)
+        elif m == 0 or m >= 4:
             s2, _ = spell(r, t)
         elif m == 1:
             t2 = rand_tuple(r, ty=ty, plain=True)
